@@ -26,6 +26,7 @@ type bundle struct {
 	LexSch   map[uint16]ref.Schema
 	LexChan  map[uint16]string
 	Scan     []string
+	ScanLate *[]string // non-indexed read restricted to log times >= the latest one
 	ScanMeta int
 	IdxFile  []string
 	IdxLog   []string
@@ -136,6 +137,21 @@ func readBundle(b []byte) *bundle {
 	}
 	bu.Scan = keys(scan.Triples)
 	bu.ScanMeta = len(scan.Meta)
+	if len(scan.Triples) > 0 {
+		var late uint64
+		for _, t := range scan.Triples {
+			if t.M.LogTime > late {
+				late = t.M.LogTime
+			}
+		}
+		ls := gow.Iterate(bytes.NewReader(b), gow.NextIntoNil, false, nil, 0, mcap.UsingIndex(false), mcap.AfterNanos(late))
+		if ls.Panic != "" || ls.Failed() != nil {
+			bu.Err = fmt.Sprintf("time-bounded scan: %v %s", ls.Failed(), ls.Panic)
+			return bu
+		}
+		k := keys(ls.Triples)
+		bu.ScanLate = &k
+	}
 	for i, o := range []mcap.ReadOrder{mcap.FileOrder, mcap.LogTimeOrder, mcap.ReverseLogTimeOrder} {
 		ir := gow.Iterate(bytes.NewReader(b), gow.NextIntoNil, false, nil, 0, mcap.UsingIndex(true), mcap.InOrder(o))
 		if ir.Panic != "" {
@@ -223,6 +239,8 @@ func diffBundle(a, b *bundle) string {
 		return "lexer channels"
 	case !reflect.DeepEqual(a.Scan, b.Scan):
 		return "non-indexed messages"
+	case !reflect.DeepEqual(a.ScanLate, b.ScanLate):
+		return "non-indexed messages in a time window"
 	case a.ScanMeta != b.ScanMeta:
 		return "metadata callback count"
 	case a.IdxErr != b.IdxErr:
@@ -457,6 +475,24 @@ func c12Oracle(l *logical, ls *layoutSpec, bu *bundle) *explore.Verdict {
 	wk := keys(want)
 	if !reflect.DeepEqual(bu.Scan, wk) {
 		return vio("C12:scan-content", "non-indexed iterator returned %d messages that differ from the content's %d", len(bu.Scan), len(wk))
+	}
+	// a time-bounded sequential read: exactly the messages at or after the latest log time
+	if bu.ScanLate != nil {
+		var late uint64
+		for _, m := range l.msgs {
+			if m.LogTime > late {
+				late = m.LogTime
+			}
+		}
+		var wl []string
+		for i, m := range l.msgs {
+			if m.LogTime >= late {
+				wl = append(wl, wk[i])
+			}
+		}
+		if !reflect.DeepEqual(*bu.ScanLate, wl) {
+			return vio("C12:scan-window", "non-indexed read with AfterNanos(latest log time) returned %d messages, %d match", len(*bu.ScanLate), len(wl))
+		}
 	}
 	wantMeta := 0
 	if l.meta != nil {
